@@ -386,6 +386,8 @@ def install_builtins(reg: Registry):
 
     @m("str", "join")
     def _join(ex, obj, args, kw, node):
+        if len(args) == 1 and hasattr(args[0], "sx_joined"):
+            return args[0].sx_joined(ex, obj, node)
         c = V.iterate(ex, args[0], node)
         if all(isinstance(x, str) for x in c):
             return obj.join(c)
